@@ -1,20 +1,327 @@
-//! C19 — not implemented yet (stub).
+//! C19 — parsing is total; printing an AST and re-parsing it is the identity from the first
+//! printed form on; the printed program evaluates to the same trace as the original.
 
 use crate::driver::{CaseOut, Env, Prop, Stream, Tier};
+use crate::genp::{arb, prog, wild};
+use crate::run::{Completion, RunCfg, diff_traces, install_panic_hook, panic_signature, run, take_last_panic};
+use crate::tape::Tape;
+use arbitrary::{Arbitrary, Unstructured};
+use boa_ast::scope::Scope;
+use boa_interner::{Interner, Sym, ToInternedString};
+use boa_parser::{Parser, Source};
 
 pub struct C19;
+
+fn sym_at(i: usize) -> Option<Sym> {
+    let bytes = i.to_le_bytes();
+    Sym::arbitrary(&mut Unstructured::new(&bytes)).ok()
+}
+
+/// strings interned after index `from` (exclusive of the static ones)
+fn interned_since(interner: &Interner, from: usize) -> Vec<String> {
+    let mut v = vec![];
+    for i in (from + 1)..=interner.len() {
+        if let Some(s) = sym_at(i).and_then(|s| interner.resolve(s)) {
+            v.push(s.join(|s| s.to_string(), |u| String::from_utf16_lossy(u), true));
+        }
+    }
+    v
+}
+
+enum Parsed {
+    Script(boa_ast::Script),
+    Module(boa_ast::Module),
+}
+impl Parsed {
+    fn print(&self, i: &Interner) -> String {
+        match self {
+            Parsed::Script(s) => s.to_interned_string(i),
+            // boa has no printer for module items (import/export declarations): only the totality
+            // clause applies to the module goal
+            Parsed::Module(_) => { let _ = i; String::new() }
+        }
+    }
+    fn same(&self, o: &Parsed) -> bool {
+        match (self, o) {
+            (Parsed::Script(a), Parsed::Script(b)) => a == b,
+            (Parsed::Module(a), Parsed::Module(b)) => a == b,
+            _ => false,
+        }
+    }
+}
+
+fn parse(src: &str, module: bool, interner: &mut Interner) -> Result<Parsed, boa_parser::Error> {
+    let mut parser = Parser::new(Source::from_bytes(src.as_bytes()));
+    let scope = Scope::new_global();
+    if module { parser.parse_module(&scope, interner).map(Parsed::Module) } else { parser.parse_script(&scope, interner).map(Parsed::Script) }
+}
+
+fn error_position(e: &boa_parser::Error) -> Option<(u32, u32)> {
+    use boa_parser::Error as E;
+    match e {
+        E::Expected { span, .. } | E::Unexpected { span, .. } => Some((span.start().line_number(), span.start().column_number())),
+        E::General { position, .. } => Some((position.line_number(), position.column_number())),
+        E::Lex { err } => match err {
+            boa_parser::lexer::Error::Syntax(_, p) => Some((p.line_number(), p.column_number())),
+            _ => None,
+        },
+        _ => None,
+    }
+}
+
+/// line/column bound check: the position must lie inside the text (one past the end allowed)
+fn position_inside(src: &str, line: u32, col: u32) -> bool {
+    // boa counts lines by LF, CR, CRLF, LS, PS; columns in code points (1-based)
+    let mut lines: Vec<usize> = vec![];
+    let mut cur = 0usize;
+    let cs: Vec<char> = src.chars().collect();
+    let mut i = 0;
+    while i < cs.len() {
+        let c = cs[i];
+        if c == '\r' && cs.get(i + 1) == Some(&'\n') {
+            lines.push(cur + 2);
+            cur = 0;
+            i += 2;
+            continue;
+        }
+        if c == '\n' || c == '\r' || c == '\u{2028}' || c == '\u{2029}' {
+            lines.push(cur + 1);
+            cur = 0;
+        } else {
+            cur += if (c as u32) > 0xffff { 2 } else { 1 };
+        }
+        i += 1;
+    }
+    lines.push(cur);
+    let l = line as usize;
+    if l == 0 || l > lines.len() + 1 {
+        return false;
+    }
+    if l == lines.len() + 1 {
+        return col <= 2;
+    }
+    (col as usize) <= lines[l - 1] + 2 && col >= 1
+}
+
+/// snippets that hit printer defects present on this tree (known findings C19-P1..P4); they are
+/// replayed as known findings and excluded from generation so the search continues past them
+pub const RISK_KNOWN_DEFECTS: &[&str] = &[
+    "for ((let) of []) {}",
+    "x = { 'f g': 2 };",
+    "x = `\\n\\u0041${'\\n'}`;",
+    "x = 1..toString();", "x = 1e21.a;", "x = 0x10.a;",
+];
+const RISK: &[&str] = &[
+    "x = { get a() { return 1 }, set a(v) {}, async *b() {}, [c]: 1, d, ...e, fg: 2, 3: 4 };",
+    "a = (b, c);", "f((a, b));", "x = y ? (a, b) : c;", "(a => a)(1);", "x = (() => {}) ? 1 : 2;", "(function () {})();", "(function () {}).call();", "({}).x;", "({ a: 1 }).a = 2;", "(class {}).name;",
+    "(let)[0] = 1;", "(async () => {})();", "x = -(-y);", "x = +(+y);", "x = - -y;", "x = -(--y);", "x = (-y) ** 2;", "x = (a ** b) ** c;", "x = a ** (b ** c);", "x = (a, b) ** 2;", "x = typeof (() => {});",
+    "x = (a + b) * c;", "x = a - (b - c);", "x = a / (b / c);", "x = (a && b) || c;", "x = a && (b || c);", "x = (a ?? b) || c;", "x = a ?? (b || c);", "x = (a = b) + 1;", "x = !(a in b);", "for (var i = (0 in {}); i < 1; i++) {}",
+    "for (let [a] of [[1]]) {}",  "for (async of => 1; false;) {}", "x = new (f())();", "x = new (a.b());", "x = new a.b();", "x = new (a().b)();", "x = (new a).b;", "x = new new a()();", "x = a?.b.c;", "x = (a?.b).c;",
+    "x = a?.[0]?.(1);", "x = `a${b}c${`d${e}`}`;", "x = tag`a${1}`;", "x = a.b`c`;",  "x = /a\\/b/g.test('a/b');", "x = a / b / c;", "x = a++ + ++b;", "x = a-- - --b;", "x = a + +b;", "x = a - -b;",
+     "x = 1.5.toFixed();", "x = (1).a;",   "x = 10n.toString();", "x = -1 ** 2;", "x = (-1) ** 2;", "x = void 0;", "x = typeof typeof a;", "x = delete a.b;", "x = await;", "yield = 1;", "x = (yield);",
+    "function* g() { yield (yield 1); yield* g(); x = yield; }", "async function f() { await (await 1); for await (x of y) {} }", "x = async function* () { yield await 1; };", 
+    "class A extends (B, C) { static #p = 1; static { this.#p; } #m() {} get #g() { return 1 } static async *[x]() {} 'quoted'() {} 42() {} }", "x = class extends (a ? b : c) {};", "if (a) b; else if (c) d; else e;", "if (a) { if (b) c; } else d;", "do x++; while (x < 5)\ny = 1;",
+    "label: for (;;) { continue label; }", "a: b: c: ;", "switch (x) { case 1: default: case 2: }", "try {} catch {} finally {}", "try {} catch ({ a, b: [c] }) {}", "throw (a, b);", "return_ = 1;", "var { a, b: { c = 1 } = {}, ...d } = e;", "var [a, , b = (1, 2), ...[c]] = d;",
+    "({ a, b } = c);", "[a, b] = [b, a];", "({ a: [b] = [], ...c } = d);", "x = function () { 'use strict'; return this; };", "'use strict'; x = 1;", "x = a\n++b;", "x = a\n(b);", "var a = 1\nvar b = 2", "x = { }\n/ 1 / 2;", "x = a /* c */ + b; // d", "x = '\\'' + \"\\\"\" + '\\\\' + '\\u2028' + '\\0' + '\\x41';",
+    "x = \\u0061bc;", "var \\u{62}cd = 1;", "x = a.if.class.new;", "x = { if: 1, class: 2, new: 3 };", "x = a?.if;", "x = a in b in c;", "x = a instanceof b instanceof c;", "x = (a, b), c;", "x = a ? b : c ? d : e;", "x = (a ? b : c) ? d : e;", "x = a = b = c;", "x = (a, b);",
+    "x = () => ({});", "x = () => ({}).a;", "x = (a, b = 1, ...c) => a;", "x = async a => a;", "x = async (a) => { await a; };", "x = ({ a }) => a;", "x = ([a] = []) => a;", "x = a => b => c;", "x = (a => a) || b;", "x = a || (b => b);", "x = new.target;", "x = import.meta;", "x = import('a');",
+    "x = super.a;", "x = 08;", "x = 0o17 + 0b11 + 0xff + 1_000 + .5 + 5. + 1e3 + 1E-3;", "x = 'a' 'b';", "debugger;", ";;;", "{}", "{ { } }", "with (a) b;", "x = a ||= b &&= c ??= d;", "x **= 2; x >>>= 1; x <<= 1;", "x = a === b !== c == d != e;", "x = a << b >> c >>> d;", "x = a | b ^ c & d;", "x = ~a + !b;",
+    "export default function () {}", "export { a as b, c as default }; var a, c;", "export * as ns from 'm';", "import d, { a as b, default as c } from 'm';", "import * as ns from 'm';", "export const [q] = [1];", "export default class {}", "export default (1, 2);", "export var v1 = 1, v2;", "import 'side';",
+];
+
+impl C19 {
+    /// totality + fixpoint + (optional) trace clause on one text
+    fn check_text(&self, src: &str, module: bool, trace_clause: bool) -> CaseOut {
+        install_panic_hook();
+        let mut interner = Interner::default();
+        let base_len = interner.len();
+        let r = std::panic::catch_unwind(std::panic::AssertUnwindSafe(|| parse(src, module, &mut interner)));
+        let parsed = match r {
+            Err(_) => {
+                let sig = panic_signature(&take_last_panic().unwrap_or_default());
+                return CaseOut::fail(src.to_string(), format!("parser panic {sig}"), "the parser panicked".to_string());
+            }
+            Ok(Err(e)) => {
+                // totality: error positioned inside the text
+                if let Some((l, c)) = error_position(&e) {
+                    if !position_inside(src, l, c) {
+                        return CaseOut::fail(src.to_string(), "error position outside the text", format!("error {e} at line {l} column {c}"));
+                    }
+                }
+                return CaseOut::pass(src.to_string(), false).with_labels(vec!["rejected"]);
+            }
+            Ok(Ok(p)) => p,
+        };
+        let ascii_plain = src.is_ascii() && !src.contains('\\');
+        if ascii_plain {
+            for s in interned_since(&interner, base_len) {
+                if !src.contains(&s) {
+                    return CaseOut::fail(src.to_string(), "interned a string that does not occur in the text", format!("interned {s:?}"));
+                }
+            }
+        }
+        if module {
+            return CaseOut::pass(src.to_string(), RISK.iter().any(|r| src.contains(r))).with_labels(vec!["accepted", "module-goal"]);
+        }
+        // p = print(parse(s))
+        let p1 = match std::panic::catch_unwind(std::panic::AssertUnwindSafe(|| parsed.print(&interner))) {
+            Ok(p) => p,
+            Err(_) => return CaseOut::fail(src.to_string(), format!("printer panic {}", panic_signature(&take_last_panic().unwrap_or_default())), String::new()),
+        };
+        let len_after_first = interner.len();
+        let second = match std::panic::catch_unwind(std::panic::AssertUnwindSafe(|| parse(&p1, module, &mut interner))) {
+            Err(_) => return CaseOut::fail(src.to_string(), format!("parser panic on printed form {}", panic_signature(&take_last_panic().unwrap_or_default())), p1),
+            Ok(Err(e)) => {
+                let msg: String = e.to_string().chars().filter(|c| !c.is_ascii_digit()).take(70).collect();
+                return CaseOut::fail(src.to_string(), format!("printed form does not parse: {}: {msg}", kind_of(&e)), format!("printed:\n{p1}\nerror: {e}"));
+            }
+            Ok(Ok(p)) => p,
+        };
+        if interner.len() != len_after_first && ascii_plain {
+            let extra = interned_since(&interner, len_after_first);
+            return CaseOut::fail(src.to_string(), "parsing the printed form interned new strings", format!("printed:\n{p1}\nnew: {extra:?}"));
+        }
+        let p2 = second.print(&interner);
+        if p2 != p1 {
+            let k = p1.lines().zip(p2.lines()).position(|(a, b)| a != b).unwrap_or(0);
+            return CaseOut::fail(src.to_string(), "print(parse(p)) != p", format!("first differing line {k}:\n  p : {:?}\n  p': {:?}\n--- p\n{p1}\n--- p'\n{p2}", p1.lines().nth(k), p2.lines().nth(k)));
+        }
+        let third = match parse(&p2, module, &mut interner) {
+            Ok(t) => t,
+            Err(e) => return CaseOut::fail(src.to_string(), "second printed form does not parse", format!("{e}\n{p2}")),
+        };
+        if !second.same(&third) {
+            return CaseOut::fail(src.to_string(), "parse(p) != parse(print(parse(p)))", format!("printed:\n{p1}"));
+        }
+        let mut labels = vec!["accepted"];
+        if module {
+            labels.push("module-goal");
+        }
+        if trace_clause && !module {
+            let cfg = RunCfg { loop_limit: 100_000, ..RunCfg::default() };
+            let a = run(src, &cfg);
+            if !a.completion.is_limit() && !matches!(a.completion, Completion::Panic(_)) {
+                let b = run(&p1, &cfg);
+                if let Some((sig, d)) = diff_traces("original", &a, "printed", &b) {
+                    return CaseOut::fail(src.to_string(), format!("trace(p) != trace(s): {sig}"), format!("printed:\n{p1}\n{d}"));
+                }
+                labels.push("trace-compared");
+            }
+        }
+        let nontrivial = p1.len() >= 40 || RISK.iter().any(|r| src.contains(r));
+        CaseOut::pass(src.to_string(), nontrivial).with_labels(labels)
+    }
+}
+
+fn kind_of(e: &boa_parser::Error) -> &'static str {
+    use boa_parser::Error as E;
+    match e {
+        E::Expected { .. } => "expected",
+        E::Unexpected { .. } => "unexpected",
+        E::AbruptEnd => "abrupt-end",
+        E::Lex { .. } => "lex",
+        E::ScopeAnalysis { .. } => "scope-analysis",
+        E::General { .. } => "general",
+    }
+}
 
 impl Prop for C19 {
     fn id(&self) -> &'static str {
         "C19"
     }
-    fn streams(&self, _tier: Tier) -> Vec<Stream> {
-        vec![]
+    fn streams(&self, tier: Tier) -> Vec<Stream> {
+        let m = if tier == Tier::Quick { 1 } else { 60 };
+        vec![
+            Stream::new("risk", 8000 * m, 120).batch(500),
+            Stream::new("program", 3000 * m, 700).batch(100),
+            Stream::new("arbitrary-ast", 8000 * m, 600).batch(400),
+            Stream::new("mutant", 8000 * m, 500).batch(400),
+            Stream::new("raw", 6000 * m, 200).batch(1000),
+        ]
     }
     fn rule(&self) -> String {
-        "stub".into()
+        "texts: risk = 1-6 snippets drawn from a list of ~190 precedence/ASI/template/regex/arrow/optional-chain/class/destructuring/module risk constructs, optionally wrapped (function body, block, arrow, class method, async/generator) and combined, script and module goal; program = gen::prog programs (also the trace clause: boa trace of the printed form equals boa trace of the original); arbitrary-ast = the maintainers' Arbitrary StatementList printed to source; mutant = token-level mutants of programs and risk snippets; raw = token soup. Checks: parse never panics and returns Ok or an Err whose line/column lies inside the text; a parse of ASCII escape-free text interns only substrings of the text; for accepted s with p = print(parse(s)): parse(p) succeeds, print(parse(p)) == p, parse(p) == parse(print(parse(p))) by AST equality, parsing p interns nothing new. Non-trivial = accepted and (contains a risk construct or printed form >= 40 chars); distinct = distinct source".into()
     }
-    fn run_case(&self, _env: &mut Env, _stream: &str, _index: u64, _tape: &[u8]) -> CaseOut {
-        CaseOut::skip(String::new(), "stub")
+    fn run_case(&self, _env: &mut Env, stream: &str, _index: u64, tape: &[u8]) -> CaseOut {
+        let mut t = Tape::new(tape);
+        match stream {
+            "risk" => {
+                let n = 1 + t.below(5);
+                let mut parts = vec![];
+                let mut module = false;
+                for _ in 0..n {
+                    let r = *t.pick(RISK);
+                    if r.starts_with("export") || r.starts_with("import ") || r.contains("import.meta") {
+                        module = true;
+                    }
+                    let wrapped = match t.below(9) {
+                        0 => format!("function w() {{ {r} }}"),
+                        1 => format!("{{ {r} }}"),
+                        2 => format!("x = () => {{ {r} }};"),
+                        3 => format!("class W {{ m() {{ {r} }} }}"),
+                        4 => format!("async function* w() {{ {r} }}"),
+                        5 => format!("if (a) {{ {r} }} else {{ {r} }}"),
+                        _ => r.to_string(),
+                    };
+                    let wrapped = if wrapped.contains("export") || wrapped.contains("import ") && !wrapped.starts_with("import") || wrapped.contains("import d") { r.to_string() } else { wrapped };
+                    parts.push(wrapped);
+                }
+                let src = parts.join("\n");
+                if module {
+                    self.check_text(&src, true, false)
+                } else {
+                    self.check_text(&src, false, false)
+                }
+            }
+            "program" => {
+                let o = match t.below(3) {
+                    0 => prog::Opts::core(),
+                    1 => prog::Opts::scope(),
+                    _ => prog::Opts::lit(),
+                };
+                if t.chance(40) {
+                    // builtin-call programs can observe function source text: fixpoint clauses only
+                    let p = wild::generate(&tape[2.min(tape.len())..]).src;
+                    return self.check_text(&p, false, false);
+                }
+                let p = prog::generate(&tape[2.min(tape.len())..], o).src;
+                self.check_text(&p, false, true)
+            }
+            "arbitrary-ast" => match arb::arb_source(tape) {
+                Some(s) => self.check_text(&s, false, false),
+                None => CaseOut::skip(String::new(), "arbitrary-ast-not-generated"),
+            },
+            "mutant" => {
+                let base = if t.bool() {
+                    let n = 1 + t.below(4);
+                    (0..n).map(|_| *t.pick(RISK)).collect::<Vec<_>>().join("\n")
+                } else {
+                    let p = prog::generate(&tape[24.min(tape.len())..], prog::Opts::core());
+                    p.src[p.src.find(prog::PRELUDE).map_or(0, |i| i + prog::PRELUDE.len())..].to_string()
+                };
+                let m = crate::props::c02::mutate_text(&base, &mut t);
+                self.check_text(&m, t.chance(30), false)
+            }
+            _ => {
+                let n = 1 + t.below(60);
+                let mut s = String::new();
+                for _ in 0..n {
+                    if t.chance(200) {
+                        s.push_str(crate::props::c02::dict_token(&mut t));
+                        s.push(' ');
+                    } else {
+                        s.push(char::from(32 + t.u8() % 95));
+                    }
+                }
+                self.check_text(&s, t.chance(30), false)
+            }
+        }
+    }
+    fn run_rendered(&self, _env: &mut Env, stream: &str, rendered: &str) -> Option<CaseOut> {
+        let module = rendered.lines().any(|l| l.starts_with("export ") || l.starts_with("import ") && !l.starts_with("import("));
+        Some(self.check_text(rendered, module, stream == "program"))
+    }
+    fn rendered_prefix_lines(&self, _r: &str) -> usize {
+        0
     }
 }
